@@ -401,6 +401,11 @@ func runC18(c *Ctx, ev *Evidence) ([]Violation, error) {
 							defer cwg.Done()
 							q := &smt.Query{Name: name + "-" + k, Asserts: append([]*smt.Term{full}, sym.SideConditions([]*smt.Term{full})...), Values: []*smt.Term{v}, Timeout: timeout, Both: true, Grace: grace}
 							in.WithWorker(func(w *smt.Worker) { results[ci] = w.Check(q) })
+							if results[ci].Status == smt.Unknown {
+								// one retry with a longer limit before the path is given up as undecided
+								q.Timeout = 4 * timeout
+								in.WithWorker(func(w *smt.Worker) { results[ci] = w.Check(q) })
+							}
 							ev.Query(name+"-"+k, results[ci])
 							ev.AddTransitions(1)
 						}(ci, k, full)
@@ -990,52 +995,44 @@ func c18Vocabulary(c *Ctx, handlers []*handlerInfo) map[string][]string {
 }
 
 func c18Refine(c *Ctx, in *sym.Interp, vocab map[string][]string, full, v *smt.Term, name string, timeout time.Duration) (string, bool) {
-	var extra []*smt.Term
-	seen := map[*smt.Term]bool{}
-	smt.Walk(full, func(x *smt.Term) {
-		if x.Op != "uf" || !strings.HasPrefix(x.Name, "J.") || seen[x] {
-			return
+	// one accepted word per sub-handler at a time (equalities propagate much
+	// better than a disjunction over the vocabulary), a few rounds
+	for round := 0; round < 3; round++ {
+		var extra []*smt.Term
+		seen := map[*smt.Term]bool{}
+		usable := false
+		smt.Walk(full, func(x *smt.Term) {
+			if x.Op != "uf" || !strings.HasPrefix(x.Name, "J.") || seen[x] {
+				return
+			}
+			seen[x] = true
+			words, ok := vocab[strings.TrimPrefix(x.Name, "J.")]
+			if !ok || len(words) == 0 {
+				return
+			}
+			if round < len(words) {
+				usable = true
+			}
+			extra = append(extra, smt.Implies(x, smt.Eq(x.Args[0], smt.StrC(words[round%len(words)]))))
+		})
+		if len(extra) == 0 || !usable {
+			return "", false
 		}
-		seen[x] = true
-		words, ok := vocab[strings.TrimPrefix(x.Name, "J.")]
-		if !ok {
-			return
+		f := smt.And(append([]*smt.Term{full}, extra...)...)
+		if f.IsFalse() {
+			continue
 		}
-		var alts []*smt.Term
-		for _, w := range words {
-			alts = append(alts, smt.Eq(x.Args[0], smt.StrC(w)))
+		var r smt.Result
+		in.WithWorker(func(w *smt.Worker) {
+			r = w.Check(&smt.Query{Name: name + "-refined", Asserts: append([]*smt.Term{f}, sym.SideConditions([]*smt.Term{f})...), Values: []*smt.Term{v}, Timeout: 3 * timeout})
+		})
+		c.Log("%s-refined round %d: %s (%s) in %.1fs", name, round, r.Status, r.Note, r.Seconds)
+		if r.Status == smt.Sat {
+			c.Log("%s-refined: candidate %q", name, r.Values[0].S)
+			return r.Values[0].S, true
 		}
-		extra = append(extra, smt.Implies(x, smt.Or(alts...)))
-	})
-	if len(extra) == 0 {
-		return "", false
 	}
-	f := smt.And(append([]*smt.Term{full}, extra...)...)
-	if f.IsFalse() {
-		return "", false
-	}
-	var r smt.Result
-	in.WithWorker(func(w *smt.Worker) {
-		r = w.Check(&smt.Query{Name: name + "-refined", Asserts: append([]*smt.Term{f}, sym.SideConditions([]*smt.Term{f})...), Values: []*smt.Term{v}, Timeout: timeout})
-	})
-	if r.Status != smt.Sat {
-		return "", false
-	}
-	return r.Values[0].S, true
-}
-
-// classNative evaluates a hostile class on a constant.
-func classNative(class, s string) (holds, known bool) {
-	if strings.HasPrefix(class, "contains ") {
-		return strings.Contains(s, strings.TrimPrefix(class, "contains ")), true
-	}
-	switch class {
-	case "javascript:/data: reference":
-		return reJSData.MatchString(s), true
-	case "url() that is not a plain http/https reference":
-		return urlBadNative(s), true
-	}
-	return false, false
+	return "", false
 }
 
 // indexesParts reports whether fn reads a []string at a constant index >= 1,
@@ -1062,4 +1059,18 @@ func indexesParts(fn *ssa.Function) bool {
 		}
 	}
 	return false
+}
+
+// classNative evaluates a hostile class on a constant.
+func classNative(class, s string) (holds, known bool) {
+	if strings.HasPrefix(class, "contains ") {
+		return strings.Contains(s, strings.TrimPrefix(class, "contains ")), true
+	}
+	switch class {
+	case "javascript:/data: reference":
+		return reJSData.MatchString(s), true
+	case "url() that is not a plain http/https reference":
+		return urlBadNative(s), true
+	}
+	return false, false
 }
